@@ -11,12 +11,18 @@
                                   is read back as d;
    * `written_displacement`     — kernel-checked, for EVERY n: the written number reaches the encoder unchanged
                                   (C03 `written_number_value`).
+   * `rel_branch_every_d`       — kernel-checked, SYMBOLIC in d: for every relative-branch row of the regenerated table
+                                  (`Lemmas.Branch.relKeys_classified`: each is jmp/jcc-shaped, call/xbegin-shaped or jrcxz-shaped), EVERY
+                                  d in −2^31..2^31−1, with and without `short`/`long`, every option byte, the second half of the per-line
+                                  pipeline yields rel8 / rel32 / rejection exactly as the property says, with d's two's complement in the
+                                  displacement field (AL.Lemmas.Branch.j_bytes / c_bytes / r_bytes).
   Register, memory and far-memory targets are instances of the C01 / C02 families (call, jmp, callf, jmpf).
 -/
 import AL.Properties.Sweep.C05
 import AL.Properties.C03
+import AL.Lemmas.Branch
 namespace AL.Properties.C05
-open AL AL.Impl AL.Spec.X86
+open AL AL.Impl AL.Gen AL.Spec.X86 AL.Lemmas.Branch AL.Lemmas.MovImm
 
 theorem rel_field_reads_back :
     (∀ d : Int, -128 ≤ d → d < 128 → toSigned 8 (leVal (leBytes 1 (d % 256).toNat)) = d) ∧
@@ -34,5 +40,51 @@ theorem written_displacement (s : Instr) (n : Nat) (hn : n < 2 ^ 64) :
     (∃ r, immTok s (AL.Lemmas.decStr n) = .ok r ∧ r.cons = n ∧ r.imm = true) ∧
     (∃ r, immTok s (45 :: AL.Lemmas.decStr n) = .ok r ∧ r.cons = (2 ^ 64 - n) % 2 ^ 64) :=
   ⟨(AL.Properties.C03.written_number_value s n 0 hn).1, (AL.Properties.C03.written_number_value s n 0 hn).2.2.1⟩
+
+/-- a displacement of the property's range as the 64-bit two's complement value the tokenizer produces -/
+theorem disp_of_int (d : Int) (h1 : -2147483648 ≤ d) (h2 : d < 2147483648) :
+    disp32 (d % 18446744073709551616).toNat ∧
+    (d % 18446744073709551616).toNat % 2 ^ 32 = (d % 4294967296).toNat ∧
+    (d % 18446744073709551616).toNat % 256 = (d % 256).toNat ∧
+    ((d % 18446744073709551616).toNat ≤ 0x7f ↔ (0 ≤ d ∧ d ≤ 127)) ∧
+    (0xffffffffffffff80 ≤ (d % 18446744073709551616).toNat ↔ (-128 ≤ d ∧ d < 0)) := by
+  unfold disp32
+  refine ⟨?_, ?_, ?_, ?_, ?_⟩ <;> omega
+
+/-- **every relative branch, every d**: for every relative-branch row of the regenerated table, every displacement
+    −2^31 ≤ d < 2^31, with and without `short` / `long`, every option byte — the code is
+      * jmp / jcc: `op8 d8` when 0 ≤ d ≤ 127 and `long` is absent, or when `short` is written and −128 ≤ d < 0;
+        REJECTED when `short` is written and d is outside −128..127; `op32 d32` otherwise;
+      * call / xbegin: `op32 d32`, rejected when `short` is written and d is outside −128..127;
+      * jrcxz: `op8 d8` when −128 ≤ d ≤ 127, rejected otherwise (never wrapped);
+    with d8 / d32 the two's complement of d (which `rel_field_reads_back` reads back as d) -/
+theorem rel_branch_every_d (key : Int) (hk : key ∈ relKeys) (name : Str) (d : Int) (h1 : -2147483648 ≤ d) (h2 : d < 2147483648)
+    (sh lg : Bool) (hx : ¬ (sh = true ∧ lg = true)) (b : Bool) (opt : Nat) :
+    lineBytes opt (brRec key name sh lg (d % 18446744073709551616).toNat b) =
+      (if jKeyOk key then jExpect (ops32 key) (op8 key) sh lg (d % 18446744073709551616).toNat
+       else if cKeyOk key then cExpect (ops32 key) sh (d % 18446744073709551616).toNat
+       else rExpect (op8 key) (d % 18446744073709551616).toNat) := by
+  have hd := (disp_of_int d h1 h2).1
+  have hc := relKeys_classified
+  rw [List.all_eq_true] at hc
+  have := hc key hk
+  simp only [Bool.or_eq_true] at this
+  by_cases hj : jKeyOk key = true
+  · simp only [hj, if_true]; exact j_key key hj name _ b opt sh lg hx hd
+  · by_cases hcc : cKeyOk key = true
+    · simp only [hj, hcc, if_true, Bool.false_eq_true, if_false]; exact c_key key hcc name _ b opt sh lg hx hd
+    · have hr : rKeyOk key = true := by
+        rcases this with (h | h) | h
+        · exact absurd h hj
+        · exact absurd h hcc
+        · exact h
+      simp only [hj, hcc, Bool.false_eq_true, if_false]; exact r_key key hr name _ b opt sh lg hx hd
+
+/-- the record is what the lexer produces (instances; the lexing of every family line is part of `Sweep.c05_sweep`) -/
+example : (match lexLine (str! "jmp short -5") with | .ok s => s == brRec 85 (str! "jmp") true false 18446744073709551611 true | _ => false) = true := by
+  decide +kernel
+example : (match lexLine (str! "jne long 5") with | .ok s => s == brRec 88 (str! "jne") false true 5 true | _ => false) = true := by
+  decide +kernel
+example : (85 : Int) ∈ relKeys ∧ (19 : Int) ∈ relKeys ∧ (100 : Int) ∈ relKeys := by decide +kernel
 
 end AL.Properties.C05
